@@ -34,6 +34,8 @@ def _nontrivial(job):
         return bool(a["pairs"]) or any(ord(c) > 127 for c in a["path"] + a["root"] + a["hostU"])
     if kind == "disp":
         return len(a["mounts"]) >= 2 and any(a["p"].startswith(m) for m in a["mounts"] if m)
+    if kind == "urlrec":
+        return a["path"] in (None, "", "/") or bool(a.get("pairs")) or bool(a.get("hostspell"))
     if kind == "envhist":
         return sum(1 for st in a["steps"] if st[0] not in ("new", "emit")) >= 2
     return len(a["s"]) > 0
@@ -63,7 +65,12 @@ def run(ctx: Ctx):
                 "pushed through every composition of iri_to_uri / uri_to_iri of depth <= 4; (b) every component string of the "
                 "TLC tables embedded in a URL; (c) EnvironBuilder(path, query mapping, base_url) -> Request; (d) a mount table "
                 "and a request path through DispatcherMiddleware (TLC table + seeded Unicode); (e) the latin-1 dance on "
-                "boundary code points; (e2) builder histories: construct, then assign path / base_url / script_root / host / url_scheme / "
+                "boundary code points; (e3) one environ (EnvironBuilder with PATH_INFO '' / '/' / text, non-empty queries, script roots with "
+                "and without trailing slash, optionally after DispatcherMiddleware for a request naming a mount exactly, optionally a "
+                "Host header in another letter case / with trailing dot) through Request.url / base_url / root_url / url_root / host_url, "
+                "wsgi.get_current_url in all 8 flag combinations and sansio get_current_url with 2..5 arguments, plus the TLC table of "
+                "direct sansio calls (root None/''/'/'/'/app'/'/app/'..., path None/''/'/'/..., 4 queries); (e4) URLs whose host is "
+                "spelled in upper / mixed case (ACE labels, names, IPv6) or with a trailing dot; (e2) builder histories: construct, then assign path / base_url / script_root / host / url_scheme / "
                 "query_string / args (items) in seeded orders, 2-3 get_environ calls on one builder, each judged like (c); non-trivial = distinct case with an escape or non-ASCII text (a, b), a query pair or "
                 "non-ASCII text (c), >= 2 mounts with a matching prefix (d)")
     ctx.assumptions += [
@@ -108,6 +115,31 @@ def run(ctx: Ctx):
         jobs.append(["env", dict(ir.gen_env(rng), src="seeded")])
     for _ in range(1200 if q else 20000):
         jobs.append(["disp", dict(ir.gen_disp(rng), src="seeded")])
+    # URL reconstruction entry points on boundary paths, host spelling variants (own stream), sansio table from TLC
+    import concurrent.futures as cf
+    with cf.ThreadPoolExecutor(max_workers=3) as ex:
+        f1 = ex.submit(ctx.model_check, AREA, "MCUrlRec", "MCQ_urlrec", timeout=600, workers=2)
+        f2 = ex.submit(tlc.run_tlc, AREA, "MCUrlRec", "MCQ_urlrec_emptypath", workers=1, tmp=ctx.tmp, allow_violation=True, timeout=600)
+        f3 = ex.submit(ctx.export, AREA, "MCUrlRec", "MCX_urlrec", count_states=False, timeout=600)
+        f1.result()
+        r2, tab = f2.result(), f3.result()
+    ctx.notes["empty_path_as_none_model_violates"] = r2.invariant_violated
+    if not r2.invariant_violated:
+        raise tlc.MachineryError("MCUrlRec/MCQ_urlrec_emptypath: the wrong get_current_url model no longer violates the contract (vacuity)")
+    qpairs = {"": [], "a=b": [["a", "b"]], "k=%C3%A9&z=1": [["k", "é"], ["z", "1"]], "a=b+c%26": [["a", "b c&"]]}
+    tab = [v for v in tab if isinstance(v, dict) and "kind" in v]
+    ctx.notes["exported_MCX_urlrec"] = len(tab)
+    for v in tab:
+        qb = bytes(v["q"])
+        jobs.append(["urlrec", {"kind": "direct", "scheme": "http", "hostU": "h.example", "hostA": "h.example", "port": "",
+                                "root": None if v["root"] == [-2] else _txt(v["root"]), "path": None if v["path"] == [-2] else _txt(v["path"]),
+                                "q": list(qb), "pairs": qpairs[qb.decode("ascii")], "src": "model"}])
+    urng = random.Random(ctx.seed * 7919 + 18)
+    for _ in range(400 if q else 12000):
+        jobs.append(["urlrec", dict(ir.gen_urlrec(urng), src="seeded")])
+    for _ in range(500 if q else 15000):
+        x, u, a = ir.gen_url_hostcase(urng)
+        jobs.append(["iri", {"x": x, "hu": u, "ha": a, "src": "hostcase"}])
     hrng = random.Random(ctx.seed * 7919 + 17)    # own stream: the cases above stay what they were
     for _ in range(400 if q else 12000):
         jobs.append(["envhist", dict(ir.gen_history(hrng), src="history")])
@@ -125,8 +157,10 @@ def run(ctx: Ctx):
         if tag in shown or not _nontrivial(job):
             continue
         shown.add(tag)
-        ctx.sample({"job": job[0], "in": dict(job[1]), "out": {k: _txt(v) for k, v in ln.items()
-                   if k in ("U", "I", "rurl", "rpath", "rhost", "app", "script1", "pinfo1", "d")}}, limit=8)
+        outv = {k: _txt(v) for k, v in ln.items() if k in ("U", "I", "rurl", "rpath", "rhost", "app", "script1", "pinfo1", "d")}
+        if job[0] == "urlrec":
+            outv = {"urls": sorted({_txt(o["u"]) for o in ln.get("outs", [])})}
+        ctx.sample({"job": job[0], "in": dict(job[1]), "out": outv}, limit=12)
     # ---- 4. the judge rejects a corrupted record (non-vacuity of the judge)
     x, u, a = "http://bücher.example/p%C3%A4th%2Fx?k=%26v#fr%C3%A4g", "bücher.example", "xn--bcher-kva.example"
     good = ir.rec_iri(x, u, a)
